@@ -1,0 +1,16 @@
+//go:build verif
+
+package dkg
+
+import (
+	vss "go.dedis.ch/kyber/v4/share/vss/rabin"
+)
+
+// Exports of unexported internals for the /verif correspondence harness
+// (property C11). Compiled only with the build tag `verif`.
+
+// VerifDealer returns the VSS dealer of this generator.
+func (d *DistKeyGenerator) VerifDealer() *vss.Dealer { return d.dealer }
+
+// VerifVerifier returns the VSS verifier this generator keeps for dealer i (nil if none).
+func (d *DistKeyGenerator) VerifVerifier(i uint32) *vss.Verifier { return d.verifiers[i] }
